@@ -113,10 +113,16 @@ def run_translators():
     shutil.rmtree(tmp, ignore_errors=True)
     os.makedirs(tmp)
     rc, o = sh([binp, "-repo", REPO, "-out", tmp], timeout=300)
-    if rc != 0:
-        return False, "translator failed:\n" + o
     for f in os.listdir(tmp):
         write_if_changed(os.path.join(COQ, "Gen", f), open(os.path.join(tmp, f)).read())
+    if rc != 0:
+        # main.go prints "translator <name>: <error>" per failing generator; a check is affected only
+        # when its spec lists that generator under "gen"
+        failed = re.findall(r"^translator (\w+):", o, flags=re.M)
+        for name in failed:
+            # a table that cannot be regenerated must not keep its stale copy
+            write_if_changed(os.path.join(COQ, "Gen", name + ".v"), "(* translator failed on the current source *)\nDefinition translator_failed := tt.\n")
+        return False, "translator failed (%s):\n%s" % (",".join(failed) or "build", o)
     return True, o
 
 
@@ -459,15 +465,19 @@ def run_check(pid, tier, seed, replay):
     # 1. translators
     ok, o = run_translators()
     if not ok:
-        notes.append(o)
-        violations.append(("proof-break", "translator", {"error": o[-3000:]}, True))
+        failed = re.findall(r"^translator (\w+):", o, flags=re.M)
+        mine = [g for g in spec.get("gen", []) if g in failed or not failed]
+        if mine:
+            notes.append(o)
+            violations.append(("proof-break", "translator " + ",".join(mine), {"error": o[-3000:],
+                               "obligation": "Gen/%s.v could not be regenerated from the current source" % mine[0]}, True))
 
     # 2. Coq build, forced re-check of this property's Props file
     force = ["Props/%s.v" % pid] + spec.get("force", [])
     rc, mo = coq_build(force=force)
     gate = grep_gate()
     n_thm, n_ok, thms, pnote = check_props_file(pid, mo)
-    proof_broken = (rc != 0) or n_ok < n_thm or bool(gate) or n_thm == 0
+    proof_broken = n_ok < n_thm or bool(gate) or n_thm == 0   # (a broken file elsewhere in the development makes `make` fail but is not this property's obligation)
     broken_detail = ""
     if proof_broken:
         errs = re.findall(r'File "\./([^"]+)", line (\d+).*?\n(Error:.*?)(?=\nmake|\nFile|\Z)', mo, flags=re.S)
